@@ -301,7 +301,8 @@ class Check:
 
     # -- end -----------------------------------------------------------------------------
     def finish(self, level="proof"):
-        os.makedirs(os.path.join(ROOT, "evidence"), exist_ok=True)
+        evdir = os.environ.get("VERIF_EVIDENCE_DIR") or os.path.join(ROOT, "evidence")   # development runs on seeded trees write elsewhere
+        os.makedirs(evdir, exist_ok=True)
         rdir = os.path.join(ROOT, "replays", self.pid)
         lines = []
         n = 0
@@ -362,7 +363,7 @@ class Check:
               "coverage": self.cov, "assumptions": self.assumptions,
               "wall_s": round(time.time() - self.t0, 2),
               "violations": len(lines)}
-        json.dump(ev, open(os.path.join(ROOT, "evidence", self.pid + ".json"), "w"), indent=1,
+        json.dump(ev, open(os.path.join(evdir, self.pid + ".json"), "w"), indent=1,
                   default=str)
         for l in lines:
             print(l)
